@@ -24,6 +24,10 @@ var c17States = []string{"ok", "directive", "signature", "conversion", "late-set
 
 func c17Converter(pkg, name, state string) string {
 	doc := "// goverter:converter\n"
+	if name == "A2" {
+		// a second output directory whose name is a prefix of the default one ("gen" vs "generated")
+		doc += "// goverter:output:file ./gen/second.go\n"
+	}
 	method := "\tConvert(source In) Out\n"
 	switch state {
 	case "directive":
@@ -120,9 +124,23 @@ func RunC17(run *ev.Run) {
 	}
 	// outputs of the all-ok version (used as pre-existing, possibly stale, outputs)
 	okTree, okRun, err := fshist.RunIn(bin, c17Tree(convs, allOK), filepath.Join(base, "ok"), "", nil, "gen", "./...")
-	if err != nil || okRun.Exit != 0 {
-		fmt.Fprintln(os.Stderr, "HARNESS-ERROR: baseline generation failed:", err, okRun)
+	if err != nil {
+		fmt.Fprintln(os.Stderr, "HARNESS-ERROR: baseline generation failed:", err)
 		run.Harness = true
+		return
+	}
+	if okRun.Exit != 0 {
+		// every converter is fine: the run must succeed, writing all output files and creating directories as needed
+		created, changed, _ := fshist.Diff(c17Tree(convs, allOK), okTree)
+		run.Outcome(fmt.Sprintf("faults:any=false/exit:%d", okRun.Exit))
+		run.Outcome("baseline-failed")
+		run.Report(ev.Violation{Site: "faults:none/pre:clean", Symptom: fmt.Sprintf("exit-%d-on-success", okRun.Exit),
+			Detail: fmt.Sprintf("all %d converters are valid but goverter gen ./... exits %d (files touched: %v %v)\n%s", nconv, okRun.Exit, created, changed, firstN(okRun.Stderr, 800)),
+			Case:   map[string]any{"kind": "c17-fault-subset", "states": allOK, "pre": "clean"}})
+		run.Cov["states"], run.Cov["transitions"], run.Cov["evaluations"], run.Cov["distinct_nontrivial"] = 1, 1, 1, 2
+		run.Cov["traces_validated_against_impl"] = 1
+		run.Cov["rule"] = "baseline run of the all-valid input failed; nothing else was explored"
+		run.Sample(map[string]any{"states": allOK, "pre": "clean", "exit": okRun.Exit})
 		return
 	}
 	os.RemoveAll(filepath.Join(base, "ok"))
